@@ -15,9 +15,16 @@ Proof. intros H. unfold nz; simpl. apply Rgtb_true. apply Rabs_pos_lt; auto. Qed
 Lemma nz_false : nz RO 0 = false.
 Proof. unfold nz; simpl. apply Rgtb_false. rewrite Rabs_R0. lra. Qed.
 
+(* -2 sin^2(x/2) = cos x - 1 : the rewritten real part of exp_buf is the same real number *)
+Lemma em1_val x T : em1 RO x T = (cos (x*T) - 1, sin (x*T)).
+Proof.
+  unfold em1; simpl. f_equal. unfold o2; simpl.
+  set (h := x * T / (1 + 1)). replace (x * T) with (2 * h) by (unfold h; field).
+  rewrite cos_2a_sin. ring.
+Qed.
+
 Lemma frc_nz x T : x <> 0 -> frc RO x T = ((cos (x*T) - 1)/x, sin (x*T)/x).
-Proof. intros H. unfold frc, cite. rewrite (nz_true x H). unfold em1, cdivr, csub, cexp, c1; simpl.
-  f_equal. f_equal. ring. Qed.
+Proof. intros H. unfold frc, cite. rewrite (nz_true x H). rewrite em1_val. reflexivity. Qed.
 Lemma frc_0 T : frc RO 0 T = (0, T).
 Proof. unfold frc, cite. rewrite nz_false. reflexivity. Qed.
 
@@ -54,18 +61,18 @@ Proof.
 Qed.
 
 Lemma soi_core_case1 a b ab T : b <> 0 ->
-  soi_core RO a b ab T = cdivr RO (csub RO (frc RO a T) (frc RO ab T)) b.
-Proof. intros H. unfold soi_core, cite. rewrite (nz_true b H). simpl. reflexivity. Qed.
+  soi_core_x RO a b ab T = cdivr RO (csub RO (frc RO a T) (frc RO ab T)) b.
+Proof. intros H. unfold soi_core_x, soi_cases_of, cite. rewrite (nz_true b H). simpl. reflexivity. Qed.
 
 Lemma soi_core_case2 a ab T : a <> 0 ->
-  soi_core RO a 0 ab T = (((cos (a*T) - 1)/a + sin (a*T) * T)/a, (sin (a*T)/a - cos (a*T) * T)/a).
+  soi_core_x RO a 0 ab T = (((cos (a*T) - 1)/a + sin (a*T) * T)/a, (sin (a*T)/a - cos (a*T) * T)/a).
 Proof.
-  intros H. unfold soi_core, cite. rewrite nz_false, (nz_true a H). rewrite (frc_nz a T H).
-  unfold em1, cdivr, cadd, csub, cexp, c1; simpl. apply c_eq; simpl; field; auto.
+  intros H. unfold soi_core_x, soi_cases_of, cite. rewrite nz_false, (nz_true a H). rewrite (frc_nz a T H), em1_val.
+  unfold cdivr, cadd, csub, cexp, c1; simpl. apply c_eq; simpl; field; auto.
 Qed.
 
-Lemma soi_core_case3 ab T : soi_core RO 0 0 ab T = (T*T/2, 0).
-Proof. unfold soi_core, cite. rewrite nz_false. simpl. apply c_eq; simpl; auto. Qed.
+Lemma soi_core_case3 ab T : soi_core_x RO 0 0 ab T = (T*T/2, 0).
+Proof. unfold soi_core_x, soi_cases_of, cite. rewrite nz_false. simpl. apply c_eq; simpl; auto. Qed.
 
 (* ------------------------------------------------------------------ Part 1: the iterated integral *)
 (* z = int_0^T e^{i a t} ( int_0^t e^{i b t'} dt' ) dt *)
@@ -117,7 +124,7 @@ Ltac Req := match goal with |- @eq _ ?x ?y => change (@eq R x y) end.
 
 (* explicit form: the inner integral is J(b,t) = int_0^t e^{i b t'} dt' (Jc_int) *)
 Theorem soi_core_integral a b T :
-  is_CInt (fun t => cmul' (cexp' (a * t)) (Jc b t)) 0 T (soi_core RO a b (a + b) T).
+  is_CInt (fun t => cmul' (cexp' (a * t)) (Jc b t)) 0 T (soi_core_x RO a b (a + b) T).
 Proof.
   destruct (Req_dec b 0) as [Hb|Hb].
   - subst b.
@@ -147,18 +154,45 @@ Proof.
       unfold scal, minus, plus, opp; simpl. unfold mult; simpl. field; auto.
 Qed.
 
-Theorem soi_cases a b T : iterated_exp_integral a b T (soi_core RO a b (a + b) T).
+Theorem soi_cases a b T : iterated_exp_integral a b T (soi_core_x RO a b (a + b) T).
 Proof. exists (fun t => Jc b t). split. intros t; apply Jc_int. apply soi_core_integral. Qed.
 
 (* the code's entry: a = Omega_ij - w, b = w + Omega_mn *)
-Lemma soi_entry_core w evi evj evm evn T :
-  soi_entry RO w evi evj evm evn T =
-  soi_core RO ((evi - evj) - w) (w + (evm - evn)) (((evi - evj) - w) + (w + (evm - evn))) T.
+Lemma soi_entry_core thr2 w evi evj evm evn T :
+  soi_entry RO thr2 w evi evj evm evn T =
+  soi_core RO thr2 ((evi - evj) - w) (w + (evm - evn)) (((evi - evj) - w) + (w + (evm - evn))) T.
 Proof. unfold soi_entry; simpl. f_equal; ring. Qed.
 
-Theorem soi_entry_integral w evi evj evm evn T :
-  iterated_exp_integral ((evi - evj) - w) (w + (evm - evn)) T (soi_entry RO w evi evj evm evn T).
-Proof. rewrite soi_entry_core. apply soi_cases. Qed.
+(* ---- the case selection of the code (|x dt| > thr2) against the selection by exact zeros ---- *)
+Lemma big_true thr2 x T : thr2 < Rabs (x * T) -> big RO thr2 x T = true.
+Proof. intros H. unfold big; simpl. apply Rgtb_true. exact H. Qed.
+Lemma big_false thr2 x T : Rabs (x * T) <= thr2 -> big RO thr2 x T = false.
+Proof. intros H. unfold big; simpl. apply Rgtb_false. exact H. Qed.
+
+(* x is "regular": exactly zero, or clearly non-zero on the scale 1/T *)
+Definition regular (thr2 x T : R) : Prop := x = 0 \/ thr2 < Rabs (x * T).
+
+Lemma regular_opp thr2 x T : regular thr2 x T -> regular thr2 (- x) T.
+Proof. intros [->|H]; [left; ring | right]. replace (- x * T) with (- (x * T)) by ring. rewrite Rabs_Ropp. exact H. Qed.
+
+(* where both denominators are regular the code's value is the exact-zero selection, i.e. the exact integral *)
+Lemma soi_core_regular thr2 a b ab T : 0 <= thr2 -> regular thr2 b T -> regular thr2 a T ->
+  soi_core RO thr2 a b ab T = soi_core_x RO a b ab T.
+Proof.
+  intros H0 Hb Ha. unfold soi_core, soi_core_x.
+  assert (Eb : big RO thr2 b T = nz RO b).
+  { destruct Hb as [->|Hb]. rewrite nz_false. apply big_false. rewrite Rmult_0_l, Rabs_R0. exact H0.
+    rewrite big_true by exact Hb. symmetry. apply nz_true. intros ->. rewrite Rmult_0_l, Rabs_R0 in Hb. lra. }
+  assert (Ea : big RO thr2 a T = nz RO a).
+  { destruct Ha as [->|Ha]. rewrite nz_false. apply big_false. rewrite Rmult_0_l, Rabs_R0. exact H0.
+    rewrite big_true by exact Ha. symmetry. apply nz_true. intros ->. rewrite Rmult_0_l, Rabs_R0 in Ha. lra. }
+  rewrite Eb, Ea. reflexivity.
+Qed.
+
+Theorem soi_entry_integral thr2 w evi evj evm evn T : 0 <= thr2 ->
+  regular thr2 (w + (evm - evn)) T -> regular thr2 ((evi - evj) - w) T ->
+  iterated_exp_integral ((evi - evj) - w) (w + (evm - evn)) T (soi_entry RO thr2 w evi evj evm evn T).
+Proof. intros H0 Hb Ha. rewrite soi_entry_core, soi_core_regular by auto. apply soi_cases. Qed.
 
 (* ------------------------------------------------------------------ Part 2: algebra of the segment integral *)
 Lemma sc2 x : sin x * sin x + cos x * cos x = 1.
@@ -166,7 +200,7 @@ Proof. generalize (sin2_cos2 x). unfold Rsqr. lra. Qed.
 
 (* the two orderings of the square [0,T]^2 : I2(a,b) + I2(b,a) = J(a) J(b) *)
 Theorem soi_sum_identity a b T :
-  cadd' (soi_core RO a b (a + b) T) (soi_core RO b a (b + a) T) = cmul' (Jc a T) (Jc b T).
+  cadd' (soi_core_x RO a b (a + b) T) (soi_core_x RO b a (b + a) T) = cmul' (Jc a T) (Jc b T).
 Proof.
   destruct (Req_dec a 0) as [Ha|Ha]; destruct (Req_dec b 0) as [Hb|Hb].
   - subst. rewrite !soi_core_case3, Jc_0. apply c_eq; simpl; field.
@@ -202,7 +236,7 @@ Lemma Jc_neg x T : Jc (- x) T = cconj' (Jc x T).
 Proof. unfold Jc, Jre, Jim. rewrite frc_neg. reflexivity. Qed.
 
 (* complex conjugation flips the signs of the three exponents *)
-Lemma soi_core_conj a b ab T : cconj' (soi_core RO a b ab T) = soi_core RO (- a) (- b) (- ab) T.
+Lemma soi_core_conj a b ab T : cconj' (soi_core_x RO a b ab T) = soi_core_x RO (- a) (- b) (- ab) T.
 Proof.
   destruct (Req_dec b 0) as [->|Hb].
   - rewrite Ropp_0. destruct (Req_dec a 0) as [->|Ha].
